@@ -24,7 +24,18 @@ func (r *Run) genBasis(filter func(*basis.Schema) bool, opts []basis.Options) (*
 		return nil, err
 	}
 	var schemas []*basis.Schema
+	only := map[string]bool{}
+	if r.ID != "GEN" { // development aid: GEN_SCHEMAS restricts any check to the named schemas (never set by MANIFEST commands)
+		for _, n := range strings.Split(getenv("GEN_SCHEMAS", ""), ",") {
+			if n != "" {
+				only[n] = true
+			}
+		}
+	}
 	for _, s := range basis.Enumerate(r.Tier, r.Seed) {
+		if len(only) > 0 && !only[s.Name] {
+			continue
+		}
 		if filter == nil || filter(s) {
 			schemas = append(schemas, s)
 		}
